@@ -5,7 +5,9 @@ import re
 from .. import tlc
 from ..dexgen import Dex
 
-WORDS = ["java", "lang", "language", "javax", "annotation", "invoke", "Foo", "a", "util", "String", "Object", "l", "j", "g", "n", "v", "android", "x"]
+WORDS = ["java", "lang", "language", "javax", "annotation", "invoke", "Foo", "a", "util", "String", "Object", "l", "j", "g", "n", "v", "android", "x",
+         # names made of / beginning / ending with the letters of the descriptor syntax, inner classes
+         "L", "LL", "URL", "Logger", "SQL", "Lx", "xL", "V", "I", "Map$Entry", "$1", "lang$L"]
 PRIMS = "ZBSCIJFD"
 
 
@@ -59,7 +61,7 @@ def run(chk):
     quick = chk.tier == "quick"
     rnd = random.Random(chk.seed)
     cfg = "TypeNameMC_quick.cfg" if quick else "TypeNameMC_thorough.cfg"
-    chk.bounds = dict(cfg=cfg, segments="lists of <= %d over {java, lang, language, javax, annotation, invoke, Foo, a}" % (3 if quick else 4),
+    chk.bounds = dict(cfg=cfg, segments="lists of <= %d over {java, lang, language, javax, annotation, invoke, Foo, a, L, URL}" % (3 if quick else 4),
                       dims="0..%d" % (2 if quick else 3))
     r, states = tlc.dump_states("TypeNameMC", cfg, timeout=3000)
     chk.model(r, "TypeNameMC/" + cfg)
